@@ -153,6 +153,31 @@ def run(ctx):
         run.instance(R1, {"fn": "is_init_secure_api", "obligation": "true only when request[\"method\"] == \"init_secure_api\""}, held=held)
         if not held:
             run.finding(Finding(R1, iis.id, "is_init_secure_api accepts something other than method == \"init_secure_api\" (a plaintext request could bypass decryption)", site=iis.loc()))
+    # every sealing uses a fresh random nonce (AES-GCM under one session key: a repeated nonce reveals plaintext relations
+    # and allows forgeries, i.e. the reply would no longer be "encrypted under that key" in any useful sense)
+    fj = ctx.fn(c.API + "types::EncryptedBody::from_json")
+    if fj:
+        seals = [(b, t) for b, t in fj.calls() if (t.get("f") or "").startswith("ring::aead::") and "seal_in_place" in (t.get("f") or "")]
+        held = len(seals) == 1
+        if held:
+            t = seals[0][1]
+            # nonce argument -> Nonce::assume_unique_for_key(x) with x = Rng::gen(thread_rng())
+            ok = False
+            for a in t["a"]:
+                for x in vf.producers(fj, a):
+                    if x[0] == "call" and x[1].endswith("Nonce::assume_unique_for_key"):
+                        nt = fj.bbs[x[2]]["t"]
+                        pn = vf.producers(fj, nt["a"][0])
+                        gens = [y for y in pn if y[0] == "call" and y[1] == "rand::Rng::gen"]
+                        if len(gens) == 1 and len(pn) == 1:
+                            gt = fj.bbs[gens[0][2]]["t"]
+                            pg = vf.producers(fj, gt["a"][0])
+                            if pg and all(y[0] == "call" and y[1] == "rand::rngs::thread::thread_rng" for y in pg):
+                                ok = True
+            held = ok
+        run.instance(R2, {"fn": "EncryptedBody::from_json", "obligation": "the AEAD nonce of every sealing is thread_rng().gen() (fresh per message)"}, held=held)
+        if not held:
+            run.finding(Finding(R2, fj.id, "the AES-GCM nonce used to seal a reply is not a fresh random value", site=fj.loc()))
     R3 = "C13.R3"
     run.rule(R3, "replies to encrypted calls are encrypted (was_encrypted path split)", floor=2)
     if fn:
